@@ -186,9 +186,10 @@ class Ctx:
         self.groups = []
 
     # ---------- proof side ----------
-    def build(self, groups=()):
+    def build(self, groups=(), extra_props=()):
         self.groups = list(groups)
-        r = subprocess.run([os.path.join(VERIF, "build.sh"), self.prop, *groups], capture_output=True, text=True, timeout=3400)
+        what = ",".join([self.prop, *[os.path.basename(e)[:-2] for e in extra_props]])
+        r = subprocess.run([os.path.join(VERIF, "build.sh"), what, *groups], capture_output=True, text=True, timeout=3400)
         ok = "BUILD-OK" in r.stdout
         self.obligation("coq-build+extraction+driver", ok, (r.stdout + r.stderr)[-2000:] if not ok else "")
         return ok
